@@ -178,3 +178,15 @@ func init() {
 		return &URegLeaf{Msg: m.Msg}
 	})
 }
+
+// UMultiIs: multi-cause node with its own value-comparing Is method.
+type UMultiIs struct {
+	Msg, Tag string
+	Errs     []error
+}
+
+func (e *UMultiIs) Error() string   { return e.Msg }
+func (e *UMultiIs) Unwrap() []error { return e.Errs }
+func (e *UMultiIs) Is(ref error) bool {
+	return ref != nil && safeText(ref) == e.Tag
+}
